@@ -305,6 +305,7 @@ type fn struct {
 	fuelIx  int
 	params  []variable // receiver first
 	uses    map[string]bool
+	resTys  []ty // result types, for `nil` in a result tuple
 }
 
 var leanKeywords = map[string]bool{"end": true, "at": true, "from": true, "in": true, "do": true, "then": true, "open": true,
@@ -662,6 +663,10 @@ func (f *fn) call(x *ast.CallExpr) ex {
 				if a.t.lean == t.lean {
 					return ex{a.code, a.pure, t}
 				}
+				if name == "string" && a.t.lean == "UInt8" {
+					// string(b) of a byte is the UTF-8 encoding of the code point b (two bytes from 0x80 on)
+					return f.lift1(a, "(byteToString %s)", ty{"Bytes", "string"})
+				}
 				fail(x.Pos(), "conversion %s(%s)", name, a.t.lean)
 			}
 			if lc, ok := libCalls[name]; ok {
@@ -898,7 +903,11 @@ func (f *fn) retStmt(o *w, rs *ast.ReturnStmt) {
 				vs = append(vs, n.lean)
 			}
 		} else {
-			for _, e := range rs.Results {
+			for i, e := range rs.Results {
+				if isNilIdent(e) && i < len(f.resTys) && strings.HasPrefix(f.resTys[i].lean, "(List ") {
+					vs = append(vs, "([] : "+f.resTys[i].lean+")") // a nil slice result: empty
+					continue
+				}
 				vs = append(vs, f.expr(e).val())
 			}
 		}
@@ -1058,6 +1067,9 @@ func (f *fn) stmt(o *w, st ast.Stmt) {
 						fail(vs.Pos(), "type of var %s", n.Name)
 					}
 					zero := map[string]string{"Int": "(0 : Int)", "Bool": "false", "Bytes": "([] : Bytes)", "UInt8": "(0 : UInt8)"}[t.lean]
+					if zero == "" && strings.HasPrefix(t.lean, "(List ") {
+						zero = "([] : " + t.lean + ")" // a nil slice: empty (nil-ness is not modelled for locals)
+					}
 					if zero == "" {
 						fail(vs.Pos(), "zero value of %s", t.lean)
 					}
@@ -1588,6 +1600,7 @@ func translate(tg *target) (text string, err error) {
 			}
 		}
 	}
+	f.resTys = resTys
 	switch {
 	case len(resTys) == 1 && resTys[0].lean == "error":
 		f.resKind, f.resLean = "error", "Unit"
